@@ -77,6 +77,8 @@ def build_harness():
 
 
 def rundir(name):
+    if os.environ.get("VERIF_REPLAY"):
+        name = "replay_" + name
     d = os.path.join(OUT, "run", "%s_s%d" % (name, seed()))
     shutil.rmtree(d, ignore_errors=True)
     os.makedirs(d)
@@ -286,6 +288,8 @@ def split_known(prop, keys):
 # ---------------- evidence / verdict ----------------
 
 def write_evidence(prop, level, coverage, wall, violations, assumptions=()):
+    if os.environ.get("VERIF_REPLAY"):
+        return      # a replay re-runs one artefact: it does not describe what the check covers
     os.makedirs(os.path.join(VERIF, "evidence"), exist_ok=True)
     ev = {"property_id": prop, "tier": tier(), "seed": seed(), "level": level, "coverage": coverage,
           "assumptions": list(assumptions), "wall_s": round(wall, 2), "violations": violations}
